@@ -118,3 +118,172 @@ Fixpoint live_mismatches (e : env) (cs : list (nat * lcase)) : list (nat * list 
                    | l => (i, l) :: live_mismatches e t
                    end
   end.
+
+(** * SQL semantics of a sqlgen filter (the specification): SimpleWhere renders [col IS ?] for a NULL
+    value and [col = ?] otherwise, conditions are AND-ed, WHERE keeps a row only if the condition is
+    TRUE under MySQL's three-valued logic.  Strings and byte strings compare bytewise (binary
+    collation); booleans are the integers 0 / 1. *)
+Open Scope Z_scope.
+Definition sql_eq (a b : dval) : option bool :=      (* None = UNKNOWN *)
+  match a, b with
+  | DNull, _ | _, DNull => None
+  | DInt x, DInt y => Some (x =? y)
+  | DBool x, DBool y => Some (Bool.eqb x y)
+  | DInt x, DBool y | DBool y, DInt x => Some (x =? (if y then 1 else 0))
+  | DFloat x, DFloat y => Some (x =? y)
+  | DTime x, DTime y => Some (x =? y)
+  | (DStr x | DBytes x), (DStr y | DBytes y) => Some (String.eqb x y)
+  | _, _ => Some false
+  end.
+Close Scope Z_scope.
+
+Definition sql_cond (cell v : dval) : bool :=
+  match v with
+  | DNull => match cell with DNull => true | _ => false end         (* col IS NULL *)
+  | _ => match sql_eq cell v with Some true => true | _ => false end (* col = v *)
+  end.
+
+(** The cell MySQL stores for a struct field is what Valuer made of it. *)
+Definition sql_where (t : table) (f : filter) (row : list fval) : bool :=
+  forallb (fun nv => match col_lookup (fst nv) t row with
+                     | Some (d, cv) => sql_cond (valuer d (dyn_of d cv)) (valuer d (snd nv))
+                     | None => false
+                     end) f.
+
+(** * The transition system: commits, binlog delivery, live queries that register then read *)
+Definition row := list fval.
+Record write : Type := mk_write { w_table : string; w_before : option row; w_after : option row }.
+Definition dbase := list (string * row).          (* rows of all tables *)
+
+Definition row_eqb (a b : row) : bool := list_eqb fval_eqb a b.
+
+Fixpoint remove_first (tbl : string) (r : row) (d : dbase) : dbase :=
+  match d with
+  | [] => []
+  | x :: d' => if String.eqb (fst x) tbl && row_eqb (snd x) r then d' else x :: remove_first tbl r d'
+  end.
+
+Definition apply_write (d : dbase) (w : write) : dbase :=
+  let d1 := match w_before w with Some r => remove_first (w_table w) r d | None => d end in
+  match w_after w with Some r => d1 ++ [(w_table w, r)] | None => d1 end.
+
+(** What a SELECT with filter [f] on table [tbl] returns, the row predicate being [p]. *)
+Definition select_by (p : filter -> row -> bool) (tbl : string) (f : filter) (d : dbase) : list row :=
+  map snd (List.filter (fun x => String.eqb (fst x) tbl && p f (snd x)) d).
+
+Inductive phase : Type := PIdle | PRegistered | PDone.
+
+Record qstate : Type := mk_q {
+  q_table : string; q_filter : filter;
+  q_phase : phase;
+  q_invalid : bool;            (* the resource of the current computation has been invalidated *)
+  q_read_at : nat;             (* number of commits when the SELECT ran *)
+  q_held : list row
+}.
+
+(** A committed write and whether its rows event will be decodable when it is delivered. *)
+Definition commit := (write * bool)%type.
+
+Record state : Type := mk_state {
+  s_init : dbase;
+  s_log : list commit;         (* commits so far, in commit (= binlog) order *)
+  s_delivered : nat;           (* events handed to the tracker so far *)
+  s_queries : list qstate
+}.
+
+Definition db_at (s : state) (k : nat) : dbase :=
+  fold_left apply_write (map fst (firstn k (s_log s))) (s_init s).
+
+Definition s_db (s : state) : dbase := db_at s (List.length (s_log s)).
+
+Inductive label : Type :=
+| Register (q : nat) | Read (q : nat) | Rerun (q : nat)
+| Commit (w : write) (decodable : bool)
+| Deliver | DeliverUndecodable.
+
+Fixpoint update_nth {A} (n : nat) (f : A -> A) (l : list A) : list A :=
+  match l, n with
+  | [], _ => []
+  | x :: t, O => f x :: t
+  | x :: t, S n' => x :: update_nth n' f t
+  end.
+
+Section Lts.
+  Variable schema : string -> table.     (* sqlgen.Schema.ByName *)
+  Variable fixed : bool.                 (* C07-fix-1 applied *)
+
+  Definition tst (tbl : string) (f : filter) (r : option row) : bool := tester (schema tbl) f r.
+
+  (** The decoded update of a decodable event of write [w] (C13: decoding gives back the images). *)
+  Definition update_of (w : write) : update := mk_update (w_table w) [(w_before w, w_after w)] false.
+
+  Definition invalidates (q : qstate) (u : update) : bool :=
+    should_invalidate (schema (q_table q)) (mk_resource 0 (q_table q) (q_filter q)) u.
+
+  Definition registered (q : qstate) : bool := match q_phase q with PIdle => false | _ => true end.
+
+  Definition process (u : update) (q : qstate) : qstate :=
+    if registered q && invalidates q u
+    then mk_q (q_table q) (q_filter q) (q_phase q) true (q_read_at q) (q_held q) else q.
+
+  Definition step (s : state) (l : label) : option state :=
+    match l with
+    | Register i =>
+        match nth_error (s_queries s) i with
+        | Some q => match q_phase q with
+                    | PIdle => Some (mk_state (s_init s) (s_log s) (s_delivered s)
+                                  (update_nth i (fun q => mk_q (q_table q) (q_filter q) PRegistered false 0 []) (s_queries s)))
+                    | _ => None
+                    end
+        | None => None
+        end
+    | Read i =>
+        match nth_error (s_queries s) i with
+        | Some q => match q_phase q with
+                    | PRegistered =>
+                        Some (mk_state (s_init s) (s_log s) (s_delivered s)
+                                (update_nth i (fun q => mk_q (q_table q) (q_filter q) PDone (q_invalid q)
+                                                          (List.length (s_log s))
+                                                          (select_by (fun f r => tst (q_table q) f (Some r)) (q_table q) (q_filter q) (s_db s)))
+                                            (s_queries s)))
+                    | _ => None
+                    end
+        | None => None
+        end
+    | Rerun i =>
+        match nth_error (s_queries s) i with
+        | Some q => match q_phase q with
+                    | PDone => Some (mk_state (s_init s) (s_log s) (s_delivered s)
+                                  (update_nth i (fun q => mk_q (q_table q) (q_filter q) PIdle false 0 []) (s_queries s)))
+                    | _ => None
+                    end
+        | None => None
+        end
+    | Commit w ok => Some (mk_state (s_init s) (s_log s ++ [(w, ok)]) (s_delivered s) (s_queries s))
+    | Deliver =>
+        match nth_error (s_log s) (s_delivered s) with
+        | Some (w, true) => Some (mk_state (s_init s) (s_log s) (S (s_delivered s)) (map (process (update_of w)) (s_queries s)))
+        | _ => None
+        end
+    | DeliverUndecodable =>
+        match nth_error (s_log s) (s_delivered s) with
+        | Some (w, false) =>
+            Some (mk_state (s_init s) (s_log s) (S (s_delivered s))
+                    (if fixed then map (process (mk_update (w_table w) [] true)) (s_queries s) else s_queries s))
+        | _ => None
+        end
+    end.
+
+  Fixpoint run (s : state) (ls : list label) : option state :=
+    match ls with
+    | [] => Some s
+    | l :: ls' => match step s l with Some s' => run s' ls' | None => None end
+    end.
+
+  Definition quiescent (s : state) : bool :=
+    Nat.eqb (s_delivered s) (List.length (s_log s)) &&
+    forallb (fun q => match q_phase q with PDone => negb (q_invalid q) | _ => false end) (s_queries s).
+End Lts.
+
+Definition initial (d : dbase) (qs : list (string * filter)) : state :=
+  mk_state d [] 0 (map (fun tf => mk_q (fst tf) (snd tf) PIdle false 0 []) qs).
